@@ -8,7 +8,11 @@ repo = os.environ["VERIF_REPO"]
 plan = json.load(open(os.path.join(V, "contracts", "plan.json")))
 props = sorted(plan["properties"])
 out = {}
-for diff in sys.argv[1:]:
+args = sys.argv[1:]
+outfile = os.path.join(V, "build", "eval_matrix_last.json")
+if "--out" in args:
+    k = args.index("--out"); outfile = args[k + 1]; del args[k:k + 2]
+for diff in args:
     subprocess.run(["git", "-C", repo, "checkout", "--", "."])
     if diff != "UNCHANGED" and subprocess.run(["git", "-C", repo, "apply", diff]).returncode != 0:
         print("####", diff, "PATCH-DOES-NOT-APPLY", flush=True); continue
@@ -27,4 +31,5 @@ for diff in sys.argv[1:]:
     print("####", name, " ".join("%s=%d" % (p, row[p]) for p in props), flush=True)
     for p in props:
         if row[p] != 0: print("      ", p, row[p + "_why"], flush=True)
-json.dump(out, open(os.path.join(V, "build", "eval_matrix_last.json"), "w"), indent=1)
+    json.dump(out, open(outfile, "w"), indent=1)
+json.dump(out, open(outfile, "w"), indent=1)
